@@ -617,6 +617,9 @@ func body(w *hx.W) {
 	if w.Shard == 2%w.NShards {
 		osClientDialStartTLS(w)
 	}
+	if w.Shard == 3%w.NShards {
+		pipelinedClientHello(w)
+	}
 	kit.SyncTimeout = 60 * time.Second
 	serverSide(w)
 	clientSide(w)
